@@ -436,7 +436,9 @@ class Pkcs8T(Target):
     name = "PKCS8"
     is_der = True
     PROT = [None, "PBKDF2WithHMAC-SHA1AndDES-EDE3-CBC", "PBKDF2WithHMAC-SHA256AndAES128-CBC", "PBKDF2WithHMAC-SHA512AndAES256-GCM",
-            "scryptAndAES128-CBC", "scryptAndAES256-GCM", "PBKDF2WithHMAC-SHA1AndAES192-CBC"]
+            "scryptAndAES128-CBC", "scryptAndAES256-GCM", "PBKDF2WithHMAC-SHA1AndAES192-CBC",
+            # PBES1 (PKCS#5 v1.5): read-only in the library, written by the encoder below
+            "pbes1:1.2.840.113549.1.5.3", "pbes1:1.2.840.113549.1.5.6", "pbes1:1.2.840.113549.1.5.10", "pbes1:1.2.840.113549.1.5.11"]
 
     def items(self, m):
         return [{"prot": i, "n": n} for i in range(len(self.PROT)) for n in ((40, 200) if i else (0, 40, 200))]
@@ -444,6 +446,21 @@ class Pkcs8T(Target):
     def encode(self, m, item):
         from Crypto.IO import PKCS8
         prot = self.PROT[item["prot"]]
+        if prot and prot.startswith("pbes1:"):
+            from Crypto.Util import asn1 as A
+            from Crypto.Protocol.KDF import PBKDF1
+            from Crypto.Cipher import DES, ARC2
+            from Crypto.Hash import MD5, SHA1
+            from Crypto.Util.Padding import pad
+            oid = prot[6:]
+            hm = MD5 if oid.endswith((".3", ".6")) else SHA1
+            mod_, cp = (DES, {}) if oid.endswith((".3", ".10")) else (ARC2, {"effective_keylen": 64})
+            inner = PKCS8.wrap(data("p8key", item["n"]), "1.2.840.113549.1.1.1")
+            salt, count = data("c13-pbes1-" + oid, 8), 2
+            kiv = PBKDF1(PASSPHRASE, salt, 16, count, hm)
+            ct = mod_.new(kiv[:8], mod_.MODE_CBC, kiv[8:], **cp).encrypt(pad(inner, 8))
+            alg = A.DerSequence([A.DerObjectId(oid).encode(), A.DerSequence([A.DerOctetString(salt).encode(), count]).encode()]).encode()
+            return A.DerSequence([alg, A.DerOctetString(ct).encode()]).encode()
         entropy.reset_stream("p8%d%d" % (item["prot"], item["n"]))
         kw = {}
         if prot:
@@ -750,8 +767,24 @@ class Machine(object):
         k = self.keys["ECC"][5]
         pub = k.public_key().export_key(format="raw")
         add("ECC", 5, openssh_private(b"ssh-ed25519", sstr(pub), sstr(pub) + sstr(k.seed + pub)), True, False)
-        # minimal X.509 certificates (the importers extract the SubjectPublicKeyInfo and never check the signature)
+        # PKCS#8 under the four PBES1 schemes (PKCS#5 v1.5): the library only reads them, so they are written here
         from Crypto.Util import asn1 as A
+        from Crypto.Protocol.KDF import PBKDF1
+        from Crypto.Cipher import DES, ARC2
+        from Crypto.Hash import MD5, SHA1
+        from Crypto.Util.Padding import pad
+
+        def pbes1(inner, oid, hashmod, module, **cp):
+            salt, count = data("c13-pbes1-" + oid, 8), 2
+            kiv = PBKDF1(PASSPHRASE, salt, 16, count, hashmod)
+            ct = module.new(kiv[:8], module.MODE_CBC, kiv[8:], **cp).encrypt(pad(inner, 8))
+            alg = A.DerSequence([A.DerObjectId(oid).encode(), A.DerSequence([A.DerOctetString(salt).encode(), count]).encode()]).encode()
+            return A.DerSequence([alg, A.DerOctetString(ct).encode()]).encode()
+        clear = self.keys["RSA"][0].export_key("DER", pkcs=8)
+        for oid, hm, mod_, cp in (("1.2.840.113549.1.5.3", MD5, DES, {}), ("1.2.840.113549.1.5.6", MD5, ARC2, {"effective_keylen": 64}),
+                                  ("1.2.840.113549.1.5.10", SHA1, DES, {}), ("1.2.840.113549.1.5.11", SHA1, ARC2, {"effective_keylen": 64})):
+            add("RSA", 0, pbes1(clear, oid, hm, mod_, **cp), False, False, passphrase=True)
+        # minimal X.509 certificates (the importers extract the SubjectPublicKeyInfo and never check the signature)
 
         def cert(spki, v3):
             alg = A.DerSequence([A.DerObjectId("1.2.840.113549.1.1.11").encode(), A.DerNull().encode()]).encode()
